@@ -10,8 +10,9 @@ RULE = ("subset_subst / closure / classdef_subset / varstore_subset: random rule
         "subset to random requests under random options; every text over the requested characters, every retained glyph's outline "
         "and advance at several variation locations compared through HarfBuzz by glyph NAME.")
 TRUSTED = ["uharfbuzz 0.52 as the independent shaper / outline reader"]
-ASSUMPTIONS = ["the Coq model covers single/multiple substitution subsetting, the closure fixpoint, class remapping and VarStore index "
-               "remapping; every other table's subsetting is checked only by the HarfBuzz sweeps",
+ASSUMPTIONS = ["the Coq model covers single/multiple substitution subsetting, the whole GSUB closure (single, multiple, alternate, ligature, "
+               "contextual and chaining lookups with nested calls; reverse chaining excluded), class remapping and VarStore index remapping; "
+               "every other table's subsetting is checked only by the HarfBuzz sweeps",
                "texts are restricted to NFC/NFD-stable strings without default-ignorable characters (shaper-side normalisation and "
                "hiding depend on which OTHER glyphs exist and are outside the property)"]
 
@@ -41,6 +42,63 @@ def _mk_gsub(lookups):
     t.ScriptList = ot.ScriptList(); t.ScriptList.ScriptRecord = [sr]; t.ScriptList.ScriptCount = 1
     g = newTable("GSUB"); g.table = t
     return g
+
+
+def model_of_gsub(table, gid):
+    """the GSUB table as the model's data: [lookup = [subtable]], subtable = Raw(tagged ints). gid: glyph name -> int"""
+    from lib import ser as S
+    allg = sorted(gid, key=gid.get)
+    G = lambda names: [gid[n] for n in names]
+    def members(cd, k):
+        d = cd.classDefs if cd is not None else {}
+        return [gid[n] for n in allg if d.get(n, 0) == k]
+    lks = []
+    for lk in table.LookupList.Lookup:
+        subs = []
+        for st in lk.SubTable:
+            if type(st).__name__.startswith("Extension"): st = st.ExtSubTable
+            T = type(st).__name__
+            if T == "SingleSubst": subs.append(Raw([0, 0] + S.ser([(gid[a], [gid[b]]) for a, b in st.mapping.items()])))
+            elif T == "AlternateSubst": subs.append(Raw([0, 0] + S.ser([(gid[a], G(b)) for a, b in st.alternates.items()])))
+            elif T == "MultipleSubst": subs.append(Raw([0, 1] + S.ser([(gid[a], G(b)) for a, b in st.mapping.items()])))
+            elif T == "LigatureSubst":
+                subs.append(Raw([1] + S.ser([(gid[a], (G(l.Component), gid[l.LigGlyph])) for a, ligs in st.ligatures.items() for l in ligs])))
+            elif T in ("ContextSubst", "ChainContextSubst"):
+                chain = T.startswith("Chain"); pre = "Chain" if chain else ""
+                rules = []
+                recs_of = lambda r: [(x.SequenceIndex, x.LookupListIndex) for x in r.SubstLookupRecord]
+                if st.Format == 1:
+                    for i, g in enumerate(st.Coverage.glyphs):
+                        rs = getattr(st, pre + "SubRuleSet")[i]
+                        if not rs: continue
+                        for r in getattr(rs, pre + "SubRule"):
+                            back = list(r.Backtrack) if chain else []; ahead = list(r.LookAhead) if chain else []
+                            rules.append((([gid[g]], [[gid[x]] for x in back + list(r.Input) + ahead]), ([[gid[x]] for x in r.Input], recs_of(r))))
+                elif st.Format == 2:
+                    icd = st.InputClassDef if chain else st.ClassDef
+                    bcd = st.BacktrackClassDef if chain else None; lcd = st.LookAheadClassDef if chain else None
+                    sets = getattr(st, pre + "SubClassSet")
+                    for i, rs in enumerate(sets):
+                        if not rs: continue
+                        first = [gid[n] for n in st.Coverage.glyphs if icd.classDefs.get(n, 0) == i]
+                        for r in getattr(rs, pre + "SubClassRule"):
+                            inp = list(r.Input if chain else r.Class)
+                            need = ([members(bcd, k) for k in r.Backtrack] if chain else []) + [members(icd, k) for k in inp] + ([members(lcd, k) for k in r.LookAhead] if chain else [])
+                            rules.append(((first, need), ([members(icd, k) for k in inp], recs_of(r))))
+                elif st.Format == 3:
+                    inp = st.InputCoverage if chain else st.Coverage
+                    others = (list(st.BacktrackCoverage) if chain else []) + list(inp[1:]) + (list(st.LookAheadCoverage) if chain else [])
+                    rules.append(((G(inp[0].glyphs), [G(c.glyphs) for c in others]), ([G(c.glyphs) for c in inp[1:]], recs_of(st))))
+                subs.append(Raw([2] + S.ser(rules)))
+            else:
+                raise NotImplementedError(T)
+        lks.append(subs)
+    return lks
+
+def gsub_lookup_order(table):
+    idx = set()
+    for fr in table.FeatureList.FeatureRecord: idx.update(fr.Feature.LookupListIndex)
+    return sorted(idx)
 
 def correspondences(tier, rng):
     import fontTools.subset  # noqa: installs the methods
@@ -126,7 +184,33 @@ def correspondences(tier, rng):
             except IndexError: return "image %#x of %#x is out of range" % (v, u)
             if row != store[u >> 16][u & 0xFFFF]: return "row of %#x changed: %r -> %r" % (u, store[u >> 16][u & 0xFFFF], row)
         return None
-    return [Corr("subset_subst", c1, impl_subset, enc=enc_subset),
+    # --- the whole closure on compiled feature programs (ligatures, contextual lookups with nested calls)
+    from fontTools.ttLib import TTFont
+    from fontTools.feaLib.builder import addOpenTypeFeaturesFromString
+    from fontTools.feaLib.error import FeatureLibError
+    c5 = []; tables = {}
+    for k in range(N(tier, 120, 1500)):
+        base, extra, fea, tags = gen_feature_program(rng)
+        order = [".notdef", "space"] + base + extra
+        f = TTFont(); f.setGlyphOrder(order)
+        try: addOpenTypeFeaturesFromString(f, fea)
+        except FeatureLibError: continue
+        if "GSUB" not in f: continue
+        t = f["GSUB"]
+        gid = {n_: i for i, n_ in enumerate(order)}
+        try: lks = model_of_gsub(t.table, gid)
+        except NotImplementedError: continue
+        tables[k] = (t, order)
+        for _ in range(4):
+            init = sorted(set([0] + [gid[rng.choice(base)] for _ in range(rng.randint(1, 4))]))
+            c5.append((k, len(order) + 2, lks, gsub_lookup_order(t.table), init))
+    def impl_gsub(x):
+        t, order = tables[x[0]]
+        s = types.SimpleNamespace(glyphs={order[i] for i in x[4]})
+        t.closure_glyphs(s)
+        return sorted(order.index(g) for g in s.glyphs)
+    return [Corr("closure_gsub", c5, impl_gsub, enc=lambda x: x[1:], compare=cmp_closure),
+            Corr("subset_subst", c1, impl_subset, enc=enc_subset),
             Corr("closure", c2, impl_closure, enc=lambda x: ([sorted(m.items()) for m in x[0]], x[1]), compare=cmp_closure),
             Corr("classdef_subset", c3, impl_classdef, enc=enc_classdef),
             Corr("varstore_subset", c4, impl_varstore, enc=lambda x: x, oracle=oracle_varstore)]
